@@ -30,7 +30,7 @@ def graph_for_transforms():
   # Variables of one shape so value programs broadcast trivially; no raw
   # arrays inside containers (they are immutable pytree leaves to NNX)
   return G.graph_strategy(max_nodes=4, max_vars=4, max_attrs=2, arrays=False,
-                          var_shapes=([], [2]))
+                          var_shapes=([], [2]), hooks=True)
 
 
 def compare_after(argsA, argsB, beforeA, beforeB, what):
